@@ -34,9 +34,10 @@ A1 == [oid |-> "1.2.840.113549.1.9.7", values |-> "31040c027077"]
 A2 == [oid |-> "1.2.840.113549.1.9.2", values |-> "311b0c19612d6c6f6e672d756e737472756374757265642d6e616d652e"]
 A3 == [oid |-> "1.3.6.1.4.1.55555.9", values |-> "3103020105"]
 A1b == [oid |-> "1.2.840.113549.1.9.7", values |-> "31050c03707732"]
-AttrLists == IF Quick THEN { <<>>, <<A1>>, <<A2, A1>>, <<A1, A2>>, <<A1, A1>>, <<A3, A2, A1b, A1>> }
+AX == [oid |-> "1.2.840.113549.1.9.14", values |-> "31023000"]   \* an extensionRequest attribute of the caller's own (empty list)
+AttrLists == IF Quick THEN { <<>>, <<A1>>, <<A2, A1>>, <<A1, A2>>, <<A1, A1>>, <<A3, A2, A1b, A1>>, <<A1, AX>> }
              ELSE { <<>>, <<A1>>, <<A2>>, <<A2, A1>>, <<A1, A2>>, <<A1, A1>>, <<A1, A1b>>, <<A1b, A1>>, <<A3, A2, A1>>, <<A1, A2, A3>>,
-                    <<A2, A3, A1>>, <<A3, A2, A1b, A1>>, <<A1, A1b, A2, A3>> }
+                    <<A2, A3, A1>>, <<A3, A2, A1b, A1>>, <<A1, A1b, A2, A3>>, <<A1, AX>>, <<AX>> }
 
 Unsup == [serial : Bool, ca : {"NoCa", "ExplicitNoCa", "Ca"}, nc : {"none", "empty", "some"}, crldp : Bool, aki : Bool]
 UnsupQuick == Unsup
@@ -79,7 +80,8 @@ ImplCsrView(a) ==
       own == IF er THEN <<[oid |-> OidExtReq, valuesRaw |-> "extreq", rawb |-> <<0>>]>> ELSE <<>>
       rest == [i \in DOMAIN a.attrs |-> [oid |-> a.attrs[i].oid, valuesRaw |-> a.attrs[i].values, rawb |-> <<i>>]]
   IN [ version |-> 0, subject |-> p.dn, subjectMulti |-> FALSE, spki |-> [raw |-> a.key.spki],
-       attrs |-> own \o rest, attrsPresent |-> TRUE, extReqs |-> IF er THEN <<ImplCsrExts(p, Variant)>> ELSE <<>>,
+       attrs |-> own \o rest, attrsPresent |-> TRUE,
+       extReqs |-> (IF er THEN <<ImplCsrExts(p, Variant)>> ELSE <<>>) \o [i \in 1..CallerExtReqs(a) |-> <<>>],
        sigOuter |-> [raw |-> SigAlgId(a.key.alg)], sigOk |-> [ring |-> "ok", openssl |-> "ok"], signedEq |-> "na",
        sigUnused |-> 0, derStrict |-> <<>>, trailing |-> FALSE, opensslOk |-> TRUE, x509pOk |-> TRUE ]
 
